@@ -352,6 +352,82 @@ def r10_7(prog, tab):
     return r
 
 
+def r10_8(prog, tab):
+    """Numbers spliced into C identifiers are non-negative.  In libasn1compiler, wherever a printf-style format places a
+    `%s` directly after an identifier character (`asn_DFL_%d_cmp_%s`) and the corresponding argument is asn1p_itoa(v), the
+    text may start with `-`; the identifier is then not an identifier and the emitted C does not compile while asn1c
+    exits 0.  The call must be dominated by a test that v is non-negative."""
+    import re as _re
+    r = Rule("R10.8", "a number printed inside a C identifier is never negative", floor=2)
+    exc = {(x["function"], x["key"]): x["reason"] for x in tab.get("r10_8_exceptions", [])}
+    for f in sorted(prog.funcs.values(), key=lambda f: f.key):
+        if "libasn1compiler/" not in f.relfile:
+            continue
+        n = 0
+        for b, i, e in sorted(f.calls(), key=lambda z: (z[2].get("line") or 0, z[0].id, z[1])):
+            args = e.get("args", [])
+            fi = None
+            for ai, a in enumerate(args):
+                t = a.get("tree")
+                if isinstance(t, list) and t and t[0] == "str" and "%" in str(t[1]):
+                    fi = ai
+            if fi is None:
+                continue
+            fmt = str(args[fi]["tree"][1])
+            convs = list(_re.finditer(r"%[-+ #0]*\d*(?:\.\d+)?(?:hh|h|ll|l|z|j|t)?([diouxXscpf%])", fmt))
+            k = 0
+            for m in convs:
+                if m.group(1) == "%":
+                    continue
+                ai = fi + 1 + k
+                k += 1
+                if m.group(1) != "s" or m.start() == 0 or not _re.match(r"[A-Za-z0-9_]", fmt[m.start() - 1]) or ai >= len(args):
+                    continue
+                if any(c.start() < m.start() <= c.end() and c is not m for c in convs):
+                    continue        # the preceding character belongs to another conversion, it is not literal identifier text
+                at = strip_casts(args[ai].get("tree"))
+                if not (isinstance(at, list) and at and at[0] == "call"):
+                    continue
+                if at[2] != "asn1p_itoa":
+                    # a wrapper around asn1p_itoa that rewrites the minus sign makes the text identifier-safe
+                    g = prog.resolve_direct(at[2], f)
+                    if g is None or not any(x.get("callee") == "asn1p_itoa" for b_, i_, x in g.calls()):
+                        continue
+                    n += 1
+                    key = "%s#%d" % (fmt.strip()[:28], n)
+                    rewrites = any(bl.term and "cond" in bl.term and any(const_of(nd) == 45 for nd in walk(bl.term["cond"]["tree"]) if isinstance(nd, list)) for bl in g.blocks.values()) \
+                        and any(x["k"] == "assign" and x.get("deref") for b_, i_, x in g.events("assign"))
+                    if rewrites:
+                        r.ok(f, key, "%s() replaces the minus sign before the text is used in an identifier" % at[2], e["line"])
+                    else:
+                        r.bad(f, key, "%s() hands on asn1p_itoa text unchanged into an identifier" % at[2], e["line"])
+                    continue
+                n += 1
+                key = "%s#%d" % (fmt.strip()[:28], n)
+                vt = at[3][0] if at[3] else None
+                implied = None
+                if vt is not None:
+                    facts = []
+                    for d in f.dominators().get(b.id, ()):
+                        tb = f.blocks[d]
+                        if not tb.term or "cond" not in tb.term or len(tb.succ) < 2 or tb.term["kind"] == "SwitchStmt":
+                            continue
+                        for idx, truth in ((0, True), (1, False)):
+                            if f.edge_dominates(d, idx, b.id):
+                                fo = assume._fact_of(tb.term["cond"]["tree"], truth)
+                                if fo is not None:
+                                    facts.append(fo)
+                    implied = assume.fact_query(tuple(facts), ["bin", ">=", vt, ["int", 0]])
+                if implied is True:
+                    r.ok(f, key, "the dominating branches imply the number is non-negative", e["line"])
+                elif (f.name, key) in exc:
+                    r.exc(f, key, exc[(f.name, key)], e["line"])
+                else:
+                    r.bad(f, key, "`%s` puts asn1p_itoa(%s) inside an identifier and nothing establishes that the number is non-negative: a "
+                                  "negative value yields `..._-5`, which does not compile, while asn1c exits 0" % (fmt.strip()[:40], tree_text(vt) if vt is not None else "?"), e["line"])
+    return r
+
+
 def run(ctx):
     prog = ctx.prog("K")
     tab = load_tables("c10")
@@ -367,6 +443,7 @@ def run(ctx):
     rules.append(c11.r11_3(prog, tab, rid="R10.5", where="libasn1compiler/", fatal=compiler_fatal, floor=15, exckey="r10_5_exceptions", nonzero_fails=True))
     rules.append(c11.r11_3(prog, load_tables("c11"), rid="R10.6", where="libasn1fix/", floor=60))
     rules.append(r10_7(prog, tab))
+    rules.append(r10_8(prog, tab))
     return rules
 
 
